@@ -237,21 +237,28 @@ impl Family for C07Family {
             } else {
                 r.below(256) as u8
             };
-            out.push(with(&|op| op.faults = vec![Fault { seam: *kind, nth: *nth, status, sticky: false }], "err1"));
+            out.push(with(&|op| op.faults = vec![Fault { seam: *kind, nth: *nth, status, sticky: false, late: false }], "err1"));
         }
         // write calls (save, update) additionally fail with a window of 16 consecutive status
         // bytes that moves with the base index, so that 16 bases cover all 256 values
         for (kind, nth) in calls.iter().filter(|(k, _)| *k != SeamKind::Find) {
             for k in 0..16u64 {
                 let status = ((base.index * 16 + k) % 256) as u8;
-                out.push(with(&|op| op.faults = vec![Fault { seam: *kind, nth: *nth, status, sticky: false }], "err-status"));
+                out.push(with(&|op| op.faults = vec![Fault { seam: *kind, nth: *nth, status, sticky: false, late: false }], "err-status"));
+            }
+        }
+        // a lost acknowledgement: the store applies an update and then reports an error (the error must
+        // still reach the caller; the counter has advanced, which the property allows)
+        for (kind, nth) in calls.iter().filter(|(k, _)| *k == SeamKind::Update) {
+            for status in [0x28u8, 0x7F, STATUSES[(base.index as usize) % STATUSES.len()]] {
+                out.push(with(&|op| op.faults = vec![Fault { seam: *kind, nth: *nth, status, sticky: false, late: true }], "err-late"));
             }
         }
         // every call of one kind keeps failing (a store that is down, a retry loop's worst case)
         for kind in [SeamKind::Find, SeamKind::Save, SeamKind::Update] {
             if calls.iter().any(|(k, _)| *k == kind) {
                 for status in [0x06u8, STATUSES[(base.index as usize) % STATUSES.len()]] {
-                    out.push(with(&|op| op.faults = vec![Fault { seam: kind, nth: 0, status, sticky: true }], "err-sticky"));
+                    out.push(with(&|op| op.faults = vec![Fault { seam: kind, nth: 0, status, sticky: true, late: false }], "err-sticky"));
                 }
             }
         }
@@ -269,8 +276,8 @@ impl Family for C07Family {
                 out.push(with(
                     &|op| {
                         op.faults = vec![
-                            Fault { seam: a.0, nth: a.1, status: sa, sticky: false },
-                            Fault { seam: b.0, nth: b.1, status: sb, sticky: false },
+                            Fault { seam: a.0, nth: a.1, status: sa, sticky: false, late: false },
+                            Fault { seam: b.0, nth: b.1, status: sb, sticky: false, late: false },
                         ];
                         op.cancel_after = cancel;
                     },
@@ -298,7 +305,7 @@ impl Family for C07Family {
                 let op = &mut cc.actors[0].ops[t_idx];
                 if !calls.is_empty() && r.bool() {
                     let a = *r.pick(&calls);
-                    op.faults = vec![Fault { seam: a.0, nth: a.1, status: *r.pick(&STATUSES), sticky: false }];
+                    op.faults = vec![Fault { seam: a.0, nth: a.1, status: *r.pick(&STATUSES), sticky: false, late: false }];
                 } else {
                     op.cancel_after = Some(r.below(u64::from(k_polls) + 4) as u32);
                 }
